@@ -41,8 +41,10 @@ IdVals == [present : {TRUE}, len : {0, 1, 50, 51}, chars : {"ok"}]
 
 -----------------------------------------------------------------------------
 (* public keys *)
-JwkOk(j) == j \in {"ec", "okp", "rsa"}
-JwkVals == {"ec", "okp", "rsa", "nokty", "nocrv", "nox", "rsa_non", "rsa_noe", "notobject"}
+JwkOk(j) == j \in {"ec", "okp", "okp_x25519", "rsa"}
+\* (the members a JWK needs go with its kty - but every key type other than RSA needs crv and x: an OKP key as much as an EC key)
+JwkVals == {"ec", "okp", "okp_x25519", "rsa", "nokty", "nocrv", "nox", "rsa_non", "rsa_noe", "notobject",
+            "okp_nocrv", "okp_nox", "okp_crv_empty", "ec_crv_empty"}
 
 \* pp: purposes member: present?, the known purposes listed, an unknown purpose listed?, a sixth
 \* entry (a repeated known purpose)?
@@ -89,7 +91,9 @@ KeyFieldVals ==
 EndpointOk(e) == e \in {"str_ok", "str_did", "list_ok", "list_one", "obj", "list_objs", "list_mixed_ok"}
 EndpointVals == {"str_ok", "str_did", "list_ok", "list_one", "obj", "list_objs", "list_mixed_ok",
                  "absent", "null", "str_empty", "str_bad", "list_bad_first", "list_bad_second",
-                 "list_bad_last", "list_empty_second", "list_mixed_bad_after_obj"}
+                 "list_bad_last", "list_empty_second", "list_mixed_bad_after_obj",
+                 \* a valid URI with white space around it is not that URI (nothing is trimmed before the check)
+                 "str_blank_front", "str_newline_end", "list_blank_front_second"}
 
 SvcOk(s) ==
     /\ IdOk(s.id)
